@@ -32,9 +32,17 @@ pub struct PathPt {
     /// are two copies of the real problem, the imaginary one started from half the initial state)
     #[serde(default)]
     pub mode: u8,
+    /// Some(e): the step bounds are (d - e, d + e) for d = end_abs - t0 as computed in floating point, so that the
+    /// first trial step (their mean) is EXACTLY the remaining distance (dtmax and dtmin_rel are ignored)
+    #[serde(default)]
+    pub one_step: Option<f64>,
 }
 impl PathPt {
     pub fn cfg(&self) -> Cfg {
+        if let (Some(e), Some(t1)) = (self.one_step, self.end_abs) {
+            let d = t1 - self.t0;
+            return Cfg { tol: self.tol, dtmin: d - e, dtmax: d + e, t0: self.t0, t1 };
+        }
         Cfg { tol: self.tol, dtmin: self.dtmin_rel * self.dtmax, dtmax: self.dtmax, t0: self.t0, t1: self.end_abs.unwrap_or(self.t0 + self.r * self.dtmax) }
     }
 }
@@ -88,7 +96,7 @@ impl Check for Lattice {
                     for &t0 in &t.pick(vec![0.0, -1.3], vec![0.0, -1.3, 2.5]) {
                         if solver == Solver::Euler {
                             for &dt in &[0.5, 0.1, 0.03, 1.0 / 3.0] {
-                                v.push(PathPt { solver, problem: p.to_string(), t0, dtmax: dt, r, tol: 1e-3, dtmin_rel: 1.0, end_abs: None, mode: 0 });
+                                v.push(PathPt { solver, problem: p.to_string(), t0, dtmax: dt, r, tol: 1e-3, dtmin_rel: 1.0, end_abs: None, mode: 0, one_step: None });
                             }
                             continue;
                         }
@@ -98,7 +106,7 @@ impl Check for Lattice {
                                     if r >= 1000.0 && (tol < 1e-6 || dtmin_rel > 1e-6 && dtmax < 0.1) {
                                         continue;
                                     }
-                                    v.push(PathPt { solver, problem: p.to_string(), t0, dtmax, r, tol, dtmin_rel, end_abs: None, mode: 0 });
+                                    v.push(PathPt { solver, problem: p.to_string(), t0, dtmax, r, tol, dtmin_rel, end_abs: None, mode: 0, one_step: None });
                                 }
                             }
                         }
@@ -115,10 +123,10 @@ impl Check for Lattice {
                 for p in &LATTICE_PROBLEMS {
                     for mode in 1..=2u8 {
                         if solver == Solver::Euler {
-                            v.push(PathPt { solver, problem: p.to_string(), t0: -1.3, dtmax: 0.1, r, tol: 1e-3, dtmin_rel: 1.0, end_abs: None, mode });
+                            v.push(PathPt { solver, problem: p.to_string(), t0: -1.3, dtmax: 0.1, r, tol: 1e-3, dtmin_rel: 1.0, end_abs: None, mode, one_step: None });
                         } else {
                             for &tol in &t.pick(vec![1e-5], vec![1e-2, 1e-5]) {
-                                v.push(PathPt { solver, problem: p.to_string(), t0: -1.3, dtmax: 0.1, r, tol, dtmin_rel: 1e-7, end_abs: None, mode });
+                                v.push(PathPt { solver, problem: p.to_string(), t0: -1.3, dtmax: 0.1, r, tol, dtmin_rel: 1e-7, end_abs: None, mode, one_step: None });
                             }
                         }
                     }
@@ -137,8 +145,41 @@ impl Check for Lattice {
                                 if solver == Solver::Euler && tol != 1e-2 {
                                     continue;
                                 }
-                                v.push(PathPt { solver, problem: prob.to_string(), t0, dtmax, r: (end - t0) / dtmax, tol, dtmin_rel: if solver == Solver::Euler { 1.0 } else { 1e-7 }, end_abs: Some(end), mode: 0 });
+                                v.push(PathPt { solver, problem: prob.to_string(), t0, dtmax, r: (end - t0) / dtmax, tol, dtmin_rel: if solver == Solver::Euler { 1.0 } else { 1e-7 }, end_abs: Some(end), mode: 0, one_step: None });
                             }
+                        }
+                    }
+                }
+            }
+        }
+        // exact floating-point coincidences at the end: (a) the first trial step - the mean of the two step bounds - is
+        // exactly the computed remaining distance end - t0 (decimal end points: t0 + (end - t0) is often NOT end);
+        // (b) minimum = maximum step h on a solution at rest, end times at and one ulp around t0 + k h (computed as a
+        // product and as a running sum): the last full step equals, just exceeds or just misses the remaining distance
+        for &solver in &ALL_SOLVERS {
+            if solver == Solver::Euler {
+                continue;
+            }
+            for &t0 in &[0.6, 0.1, 0.3, 0.7, -0.7, -1.3, 2.5] {
+                for &len in &[1.1, 0.7, 0.3, 1.3, 0.9, 2.3] {
+                    let t1: f64 = t0 + len;
+                    let d = t1 - t0;
+                    let Some(e) = [d / 2.0, d / 4.0, d / 8.0].into_iter().find(|e| ((d + e) + (d - e)) * 0.5 == d && ((d + e) + (d - e)) / 2.0 == d) else { continue };
+                    for prob in ["rest", "lin-2"] {
+                        v.push(PathPt { solver, problem: prob.to_string(), t0, dtmax: d + e, r: 1.0, tol: 1e-2, dtmin_rel: (d - e) / (d + e), end_abs: Some(t1), mode: 0, one_step: Some(e) });
+                    }
+                }
+            }
+            for &h in &[0.1, 0.3, 0.7] {
+                for &t0 in &[0.0, 0.6, 0.1, -1.3] {
+                    for k in 1..=5usize {
+                        let prod = t0 + k as f64 * h;
+                        let sum = (0..k).fold(t0, |t, _| t + h);
+                        let mut ends = vec![next_down(prod), prod, next_up(prod), next_down(sum), sum, next_up(sum)];
+                        ends.sort_by(|a, b| a.partial_cmp(b).unwrap());
+                        ends.dedup();
+                        for end in ends {
+                            v.push(PathPt { solver, problem: "rest".to_string(), t0, dtmax: h, r: (end - t0) / h, tol: 1e-2, dtmin_rel: 1.0, end_abs: Some(end), mode: 0, one_step: None });
                         }
                     }
                 }
